@@ -18,7 +18,7 @@ git checkout -q -- .; git clean -qfd -e _seed >/dev/null 2>&1
 echo "$p-$dk: $bl (code $bcode) demo_with_change=$dwith demo_without=$dwithout"
 if [ $bcode -eq 0 ] && [ $dwith -ne 0 ] && [ $dwithout -eq 0 ]; then
   mkdir -p "$dst"
-  cp "$sd"/* "$dst"/ 2>/dev/null
+  cp -r "$sd"/. "$dst"/ 2>/dev/null
   python3 - "$p" "$dk" "$dst" "$bl" "$dwith" "$dwithout" <<'PY'
 import json,sys,re
 p,k,dst,base,dw,dwo=sys.argv[1:]
